@@ -133,6 +133,13 @@ def one(ctx: Ctx, cs, pname, over, core=True):
         ctx.extra.setdefault('combos', {})
         ctx.extra['combos'][f'M={min(M, 13)} pickup={pickup} a={"first" if lo == 1 else "last" if lo == M else "mid"} '
                             f'b={"first" if hi == 1 else "last" if hi == M else "M-1" if hi == M - 1 else "mid"}'] = 1
+    # "the first k measures" / "from measure k on" of every score of the run through option objects built once
+    for k_ in (1, 2, 3, 4):
+        for okw in ({'to_measure': k_}, {'from_measure': k_}, {'from_measure': 1, 'to_measure': k_}):
+            okw = dict(kw, **okw)
+            ref, rerr = kpx.dumps(d, **okw)
+            ctx.ev()
+            kpx.fixed_options_check(ctx, d, okw, ref, rerr, dict(case, **{a: b for a, b in okw.items() if a != 'spine_types'}))
     # single-measure exports contain every data line exactly once (checked on the union)
     ctx.ev()
     singles = []
